@@ -20,7 +20,7 @@ var c08Weights = core.OpWeights{
 }
 
 func genC08(t *rapid.T, tier string) HistCase {
-	return genHist(t, tier, core.GenOpts{BigOneIn: 12}, c08Weights, 60, 120, 30, 3)
+	return genHist(t, tier, core.GenOpts{BigOneIn: 12, Vals: core.ValKindsWithFloat}, c08Weights, 60, 120, 30, 3)
 }
 
 func runC08(c HistCase, o *run.Obs) error {
